@@ -58,6 +58,29 @@ INSTR_FUNCS = {"_maybe_precompute", "scale", "x", "y", "to_affine", "__mul__", "
                "mul_add", "__eq__", "__add__", "double", "__getstate__"}
 
 _CODES = {}
+_RW = {}
+
+
+def _rwlock_code():
+    """the lock module compiled once per process; every run executes this code object afresh with the
+    `threading` module replaced by the simulator's shim, so locks created at import time or in class
+    bodies are SimLocks too (same code objects every time: the monitoring set-up stays valid)"""
+    if "co" not in _RW:
+        with open(_rwlock.__file__) as f:
+            _RW["co"] = compile(f.read(), _rwlock.__file__, "exec")
+    return _RW["co"]
+
+
+def _fresh_rwlock_module(s):
+    import sys
+    ns = {"__name__": _rwlock.__name__, "__file__": _rwlock.__file__}
+    real = sys.modules["threading"]
+    sys.modules["threading"] = sched.ThreadingShim(s)
+    try:
+        exec(_rwlock_code(), ns)
+    finally:
+        sys.modules["threading"] = real
+    return ns
 
 
 def _configure(mode):
@@ -65,7 +88,7 @@ def _configure(mode):
     mon = sched.Monitor.get()
     if mode not in _CODES:
         if mode == "lock":
-            _CODES[mode] = (sched.code_objects_of([_rwlock.__file__]), [])
+            _CODES[mode] = (sched.nested_code_objects(_rwlock_code()), [])
         else:
             fl = [_ec.__file__, _nt.__file__, _keys.__file__, _ecdsa.__file__, _ecdh.__file__,
                   _util.__file__, env.plugin.__file__]
@@ -182,14 +205,13 @@ def _run_lock(case, out):
 
     def build(preempt, choices):
         s = sched.Sched(preempt=preempt, choices=choices, max_steps=40000)
-        _rwlock.threading = sched.ThreadingShim(s)
-        try:
-            lock = _rwlock.RWLock()
-        finally:
-            _rwlock.threading = sched._real_threading
+        s.wall_cap = 20.0
+        ns = _fresh_rwlock_module(s)
+        lock = ns["RWLock"]()
         names = ["read_switch.mutex", "write_switch.mutex", "no_readers", "no_writers", "readers_queue"]
-        for lk, nm in zip(s.locks, names):
-            lk.name = nm
+        if len(s.locks) == 5:
+            for lk, nm in zip(s.locks, names):
+                lk.name = nm
 
         def body(spec, t):
             def fn():
@@ -284,6 +306,10 @@ def _run_lock(case, out):
                  "no thread can run: %s ; lock ops tail %s" % (
                      [(t.tid, t.role, t.phase, t.state, getattr(t.blocked_on, "name", None))
                       for t in s.threads], s.lock_ops[-12:]), narrow)
+    elif s.aborted == "hang":
+        out.fail("C20.lock.deadlock", "hang-outside-simulator",
+                 "threads stopped making progress on a primitive the simulator does not own: %s" % (
+                     [(t.tid, t.role, t.phase, t.state) for t in s.threads],), narrow)
     elif s.aborted == "step-cap":
         out.fail("C20.lock.no-progress", "step-cap",
                  "threads did not finish within 8x the solo step count (%d steps)" % s.step, narrow)
